@@ -12,23 +12,11 @@ Lemma device_rx_local_request st now f x m a : request_of f = Some (None, m, a) 
 Proof.
   unfold request_of, device_rx.
   destruct (Npci.dec_npci (f_data f)) as [[[c h] rest]|e]; [|discriminate].
-  assert (G : Npci.nmsg h = None -> (Npci.dadr h = None \/ Npci.dadr h = Some Npci.GBroadcast) ->
-    match Apci.dec_apci rest with
-    | Ok (ah, payload) =>
-        if a_type (to_apdu ah payload) =? 0
-        then Some (match Npci.sadr h with Some (Npci.RStation snet smac) => (Some snet, smac) | _ => (None, f_src f) end,
-                   to_apdu ah payload)
-        else None
-    | Err _ => None end = Some (None, m, a) ->
-    _).
-  2:{ destruct (Npci.dadr h) as [[?|?|]|] eqn:Ed; destruct (Npci.nmsg h) eqn:En; try discriminate; intros H;
-      apply G; auto. }
-  intros En Ed H. rewrite En.
-  destruct (Apci.dec_apci rest) as [[ah payload]|e] eqn:Eda; [|discriminate].
-  destruct (a_type (to_apdu ah payload) =? 0) eqn:Et; [|discriminate].
-  assert (Hwf : wf_request (to_apdu ah payload)) by (eapply dec_apci_request_wf; [eassumption | lia]).
-  destruct (Npci.sadr h) as [[snet smac|?|]|]; inversion H; subst;
-    (destruct Ed as [-> | ->]; cbn [negb]; auto).
+  destruct (Npci.dadr h) as [[?|?|]|] eqn:Ed; destruct (Npci.nmsg h) eqn:En; try discriminate;
+  (destruct (Apci.dec_apci rest) as [[ah payload]|e] eqn:Eda; [|discriminate];
+   destruct (a_type (to_apdu ah payload) =? 0) eqn:Et; [|discriminate];
+   assert (Hwf : wf_request (to_apdu ah payload)) by (eapply dec_apci_request_wf; [eassumption | lia]);
+   destruct (Npci.sadr h) as [[snet smac|?|]|]; intros H; inversion H; subst; cbn [negb]; cbv beta iota; auto).
 Qed.
 
 Lemma reply_apdu_type req x r :
@@ -63,10 +51,10 @@ Proof.
   destruct (dec_maxsegs_total _ Hms) as (ms & Ems).
   unfold s_idle, s_abort. rewrite Ht. cbn [Z.eqb negb]. mcbn.
   destruct (dec_maxresp_total _ Hmr) as [(v & Ev) | Ev]; rewrite Ev; mcbn.
-  - rewrite Ems. mcbn. rewrite Hseg. cbn [negb]. mcbn. right. exists v.
-    split; [reflexivity|]. split; [eapply dec_maxresp_pos; eassumption|].
-    cbn. repeat split; reflexivity.
-  - cbn. left. eexists. repeat split; reflexivity.
+  - rewrite Ems. mcbn. rewrite Hseg. cbn [negb].
+    path_split_c; mcbn; right; exists v;
+    (split; [reflexivity|]; split; [eapply dec_maxresp_pos; eassumption|]; cbn; repeat split; reflexivity).
+  - path_split_c; mcbn; cbn; left; eexists; repeat split; reflexivity.
 Qed.
 
 (* C10_one_reply_end_to_end over the reply function *)
